@@ -185,4 +185,13 @@ def MMap.lookup (cfg : Cfg) (mm : MMap) (ck : CKey Key) : MMap × Res Entry (Lis
     let (st', r) := Ovld.lookup (plan cfg mm.meths) mm.st (c, k)
     ({ mm with st := st', tcache := if resolves then touchT cfg mm.meths mm.tcache k else mm.tcache }, r)
 
+/-- `table[ck]` interrupted after `n` writes of its resolution -/
+def MMap.lookupCut (cfg : Cfg) (mm : MMap) (ck : CKey Key) (n : Nat) : MMap :=
+  match ck with
+  | (_, []) => mm
+  | (c, k) =>
+    let resolves := (mm.st.cache (c, k)).isNone && (mm.st.cache (none, k)).isNone
+    { mm with st := Ovld.lookupCut (plan cfg mm.meths) mm.st (c, k) n,
+              tcache := if resolves then touchT cfg mm.meths mm.tcache k else mm.tcache }
+
 end Ovld
